@@ -42,6 +42,7 @@ type c03Case struct {
 	Style   string   `json:"style"` // bare | db | colq
 	KeyPos  int      `json:"key_pos"`
 	Child   bool     `json:"child,omitempty"` // insert into the linked child table (own sharding column)
+	Deco    string   `json:"deco,omitempty"`  // U upper, M mixed, Q back-quoted, C comment before the name, I INTO omitted
 	PCol    bool     `json:"pcol,omitempty"`  // child insert also sets the column named like the parent's sharding column
 	Rows    []c03Row `json:"rows"`
 	SQL     string   `json:"sql,omitempty"`
@@ -49,7 +50,8 @@ type c03Case struct {
 
 func c03Routable(kind, seq string) bool {
 	switch kind {
-	case "lit", "qint", "qzero":
+	case "lit", "qint", "qzero", "big", "qbig", "qneg":
+		// literals: if the statement is accepted the row must be findable by a point query
 		return true
 	case "seqnull", "seqnext", "null":
 		// with a global sequence configured on the sharding column, NULL / nextval() / an omitted
@@ -83,13 +85,18 @@ func c03SQL(c *plCfg, cs *c03Case) string {
 		verb = "REPLACE INTO "
 	}
 	ltbl, lkey := cs.tblKey(c)
-	tbl := ltbl
+	st := "bare"
 	if cs.Style == "db" {
-		tbl = c.DB + "." + ltbl
+		st = "db"
+	}
+	sp := plSpellX(c, st, strings.Replace(cs.Deco, "I", "", -1), ltbl, lkey, "a")
+	tbl := sp.Ref
+	if strings.Contains(cs.Deco, "I") {
+		verb = strings.Replace(verb, " INTO ", " ", 1)
 	}
 	q := ""
 	if cs.Style == "colq" {
-		q = ltbl + "."
+		q = sp.Name + "."
 	}
 	// column order: payload columns with the key at KeyPos
 	names := []string{"v", "other"}
@@ -250,13 +257,13 @@ func c03Stored(c *plCfg, e ast.ExprNode) (string, bool) {
 	switch c.KeyT {
 	case plTInt:
 		if v.IsStr {
-			n, err := strconv.ParseInt(v.S, 10, 64)
+			n, err := plParseInt(v.S)
 			if err != nil {
 				return "", false
 			}
-			return strconv.FormatInt(n, 10), true
+			return n.String(), true
 		}
-		return strconv.FormatInt(v.I, 10), true
+		return v.String(), true
 	case plTDate:
 		if !v.IsStr {
 			return "", false
@@ -273,20 +280,20 @@ func c03Stored(c *plCfg, e ast.ExprNode) (string, bool) {
 	return "'" + v.S + "'", true
 }
 
-var c03LookupCache = map[string]int{}
+var c03LookupCache = map[string][]int{}
 
 // c03Lookup routes `SELECT * FROM t WHERE key = lit` through the real planner; -1 = not one table.
-func c03Lookup(c *plCfg, seq, tbl, key, lit string) int {
+func c03Lookup(c *plCfg, seq, tbl, key, lit string) []int {
 	k := c.ID + "|" + seq + "|" + tbl + "|" + lit
 	if v, ok := c03LookupCache[k]; ok {
 		return v
 	}
-	res := -1
+	var res []int
 	pl := plBuild(c, c.DB, "SELECT * FROM "+tbl+" WHERE "+key+" = "+lit)
-	if !pl.Rejected() {
+	if !pl.Rejected() && !pl.Unshard {
 		idxs, unknown, err := plDecodeTargets(c, tbl, plFlatten(pl.SQLs))
-		if err == nil && len(unknown) == 0 && len(idxs) == 1 {
-			res = idxs[0]
+		if err == nil && len(unknown) == 0 {
+			res = idxs
 		}
 	}
 	c03LookupCache[k] = res
@@ -294,11 +301,12 @@ func c03Lookup(c *plCfg, seq, tbl, key, lit string) int {
 }
 
 type c03Result struct {
-	Clause   string
-	Detail   string
-	Rejected string // "" | parse | error | panic | exec
-	GenBug   string
-	Written  int
+	Clause       string
+	Detail       string
+	Rejected     string // "" | parse | error | panic | exec
+	GenBug       string
+	PointLookups int // rows whose placement was compared with a single-table point lookup
+	Written      int
 }
 
 func c03Run(cs *c03Case) (res c03Result) {
@@ -323,6 +331,15 @@ func c03Run(cs *c03Case) (res c03Result) {
 		return
 	case pl.Err != "":
 		res.Rejected = "error"
+		return
+	}
+	if pl.Unshard {
+		how := "BuildPlan returned an UnshardPlan"
+		if pl.Fast {
+			how = "the session's token pre-check took it for a statement on unsharded tables"
+		}
+		res.Clause = "planned-as-unsharded"
+		res.Detail = fmt.Sprintf("insert into sharded table: %s; all rows go verbatim to the default slice: %v", how, plFlatten(pl.SQLs))
 		return
 	}
 	x := &plExec{}
@@ -441,10 +458,19 @@ func c03Run(cs *c03Case) (res c03Result) {
 			}
 		}
 		want := c03Lookup(c, cs.seqCol0(), ltbl, lkey, stored)
-		if want != w.Idx {
+		found := false
+		for _, x := range want {
+			if x == w.Idx {
+				found = true
+			}
+		}
+		if !found {
 			res.Clause = "wrong-table"
-			res.Detail = fmt.Sprintf("row %d (key %s) written to %s but `SELECT .. WHERE %s = %s` is routed to table index %d", i, r.Key, w.Addr.String(), lkey, stored, want)
+			res.Detail = fmt.Sprintf("row %d (key %s) written to %s but `SELECT .. WHERE %s = %s` is routed to table indexes %v", i, r.Key, w.Addr.String(), lkey, stored, want)
 			return
+		}
+		if len(want) == 1 {
+			res.PointLookups++
 		}
 	}
 	return
@@ -502,7 +528,19 @@ func c03KeyOf(r *kit.Rand, c *plCfg, kind string) (string, bool) {
 		if c.KeyT != plTInt {
 			return "", false
 		}
-		return []string{"-5", "-1", "- 7", "+3"}[r.Intn(4)], true
+		return []string{"-5", "-1", "- 7", "+3", "-9223372036854775808"}[r.Intn(5)], true
+	case "big", "qbig", "qneg":
+		if !numeric {
+			return "", false
+		}
+		v := []string{"9223372036854775807", "9223372036854775808", "18446744073709551615"}[r.Intn(3)]
+		switch kind {
+		case "qbig":
+			return "'" + v + "'", true
+		case "qneg":
+			return []string{"'-5'", "'-1'", "'-9223372036854775808'"}[r.Intn(3)], true
+		}
+		return v, true
 	case "arith":
 		if c.KeyT != plTInt {
 			return "", false
@@ -530,7 +568,10 @@ func c03KeyOf(r *kit.Rand, c *plCfg, kind string) (string, bool) {
 	return "", false
 }
 
-var c03Kinds = []string{"lit", "qint", "qzero", "neg", "arith", "func", "null", "oor"}
+// c03Decos: table-name decorations of INSERT/REPLACE ("" most of the time); I = INTO omitted
+var c03Decos = []string{"", "", "", "U", "M", "Q", "C", "I", "UI", "MI", "QI", "UQ", "MC", "QC"}
+
+var c03Kinds = []string{"lit", "qint", "qzero", "neg", "arith", "func", "null", "oor", "big", "qbig", "qneg"}
 
 // c03Minimize removes rows and decorations while the same clause keeps failing, then
 // canonicalises the remaining kinds.
@@ -566,6 +607,16 @@ func c03Minimize(cs *c03Case, clause string) (*c03Case, string) {
 		if cur.Style != "bare" {
 			x := cur
 			x.Style = "bare"
+			cands = append(cands, &x)
+		}
+		for i := range cur.Deco {
+			x := cur
+			x.Deco = cur.Deco[:i] + cur.Deco[i+1:]
+			cands = append(cands, &x)
+		}
+		if cur.Form == "set" && clause == "planned-as-unsharded" {
+			x := cur
+			x.Form = "values"
 			cands = append(cands, &x)
 		}
 		if cur.KeyPos != 0 {
@@ -623,6 +674,9 @@ func c03Minimize(cs *c03Case, clause string) (*c03Case, string) {
 	}
 	sort.Strings(kinds)
 	parts := []string{cur.Form, clause, strings.Join(kinds, "+")}
+	if clause == "planned-as-unsharded" {
+		parts = []string{cur.Form, clause} // decided from the tokens, whatever the values are
+	}
 	if clause == "wrong-table" || clause == "bad-target" {
 		parts = append(parts, c.Type)
 	}
@@ -634,6 +688,9 @@ func c03Minimize(cs *c03Case, clause string) (*c03Case, string) {
 	}
 	if cur.Style != "bare" {
 		parts = append(parts, "style="+cur.Style)
+	}
+	if cur.Deco != "" {
+		parts = append(parts, "deco="+cur.Deco)
 	}
 	if cur.Seq != "" {
 		s := "seq=" + cur.Seq
@@ -756,6 +813,7 @@ func TestVerif_C03(t *testing.T) {
 			rec.Count("has_unroutable_"+outcome, 1)
 		}
 		rec.Count("rows_written", int64(res.Written))
+		rec.Count("rows_checked_against_single_table_point_lookup", int64(res.PointLookups))
 		if len(cs.Rows) > 1 || !allRoutable || cs.Seq != "" || cs.Child {
 			tgt := "parent"
 			if cs.Child {
@@ -845,6 +903,16 @@ func TestVerif_C03(t *testing.T) {
 		for _, st := range []string{"bare", "db"} {
 			c03Global(rec, c, st, 1+len(id)%3)
 		}
+		// every spelling of the table reference, VALUES and SET form, INSERT and REPLACE
+		if rows, ok := mk(r, c, []string{"lit"}); ok {
+			for _, dc := range []string{"U", "M", "Q", "C", "I", "UI", "MI", "QI", "CI", "UQ", "MC", "QC"} {
+				for _, st := range []string{"bare", "db"} {
+					runOne(&c03Case{Cfg: id, Form: "values", Style: st, Deco: dc, KeyPos: 0, Rows: rows})
+					runOne(&c03Case{Cfg: id, Form: "set", Style: st, Deco: dc, KeyPos: 1, Replace: st == "db", Rows: rows})
+					runOne(&c03Case{Cfg: id, Form: "values", Style: st, Deco: dc, KeyPos: 1, Child: true, PCol: true, Replace: st == "bare", Rows: rows})
+				}
+			}
+		}
 		// linked child table: its own sharding column differs from the parent's, and the column
 		// named like the parent's key carries an independent value
 		for _, k1 := range c03Kinds {
@@ -868,7 +936,7 @@ func TestVerif_C03(t *testing.T) {
 	for i := 0; i < n; i++ {
 		id := ids[r.Intn(len(ids))]
 		cs := &c03Case{Cfg: id, Form: "values", Style: []string{"bare", "bare", "db", "colq"}[r.Intn(4)], KeyPos: r.Intn(3),
-			Replace: r.Chance(1, 4), OnDup: r.Chance(1, 4)}
+			Replace: r.Chance(1, 4), OnDup: r.Chance(1, 4), Deco: c03Decos[r.Intn(len(c03Decos))]}
 		spec, _ := plGetCfg(id, "")
 		if r.Chance(1, 3) {
 			if spec.KeyT == plTInt && !spec.Ts && r.Bool() {
@@ -918,7 +986,7 @@ func TestVerif_C03(t *testing.T) {
 		id := ids[r.Intn(len(ids))]
 		c, _ := plGetCfg(id, "")
 		cs := &c03Case{Cfg: id, Form: "values", Style: []string{"bare", "db", "colq"}[r.Intn(3)], KeyPos: r.Intn(3),
-			Replace: r.Chance(1, 3), OnDup: r.Chance(1, 4), Child: true, PCol: r.Chance(3, 4)}
+			Replace: r.Chance(1, 3), OnDup: r.Chance(1, 4), Child: true, PCol: r.Chance(3, 4), Deco: c03Decos[r.Intn(len(c03Decos))]}
 		nrows := r.Range(1, 5)
 		if r.Chance(1, 5) {
 			cs.Form, nrows = "set", 1
